@@ -116,10 +116,23 @@ EXTRA = [
     ("function f(){ var e1; try { throw 7 } catch (ex) { e1 = function(){ return ex } } return e1() } f()", 7),
     ("function f(p){ var g = function(){ return typeof p + ':' + p }; p = 5; return g() } f('s')", "number:5"),
     ("function f(){ var t = this; return (function(){ return typeof this })() } f()", "undefined"),
-    # a function whose own name is also declared inside it, among several other locals (the self-name slot is found by name)
-    ("function fact(n){ if (n <= 1) return 1; var r = n * fact(n - 1); if (r < 0) { var fact = null, lo, hi, acc, tmp; } return r } fact(5)", 120),
-    ("var g = function self(n){ var a1, a2, a3, a4, a5, a6; if (n == 0) return 0; if (n < 0) { var self = 1; } return 1 + self(n - 1) }; g(4)", 4),
-    ("function w(n, p1, p2){ var q1 = 1, q2 = 2, q3 = 3; function inner(){ return q1 + q2 + q3 } if (n > 2) { var w = 0; } return n == 0 ? inner() : w(n - 1) } w(2)", 6),
+    # a function's own name among several other locals (the self-name slot is found by name); a var or parameter of the same
+    # name shadows it (a function declaration's name is not even bound inside it: the var is simply a fresh local)
+    ("function fact(n){ var lo, hi, acc, tmp; if (n <= 1) return 1; return n * fact(n - 1) } fact(5)", 120),
+    ("var g = function self(n){ var a1, a2, a3, a4, a5, a6; if (n == 0) return 0; return 1 + self(n - 1) }; g(4)", 4),
+    ("function fact(n){ var r = typeof fact; if (n < 0) { var fact = null, lo, hi, acc, tmp; } return r } fact(5)", "undefined"),
+    ("function fact(n){ var fact; return typeof fact } fact(5)", "undefined"),
+    ("var g = function self(n){ var a1, a2, a3, a4, a5, a6; var r = typeof self; if (n < 0) { var self = 1; } return r }; g(4)", "undefined"),
+    ("var g = function self(self){ return typeof self }; [g(), g(1)]", ["undefined", "number"]),
+    ("var g = function self(){ function self(){ return 2 } return self() }; g()", 2),
+    ("function w(n, p1, p2){ var q1 = 1, q2 = 2, q3 = 3; function inner(){ return q1 + q2 + q3 } var t = typeof w; if (n > 2) { var w = 0; } return t + inner() } w(2)", "undefined6"),
+    ("var h = function me(){ var k = function(){ return typeof me }; return k() }; h()", "function"),
+    ("var h = function me(){ var me; var k = function(){ return typeof me }; return k() }; h()", "undefined"),
+    # ++ / -- / compound assignment on a captured variable that is neither the first local nor the first captured one
+    ("function counter(step, start){ var get = function(){ return start + ':' + step }; start++; return get() } counter(10, 1)", "2:10"),
+    ("function counter(step, start, pad){ var get = function(){ return [start, step, pad].join(':') }; ++start; pad--; step += 5; return get() } counter(10, 1, 7)", "2:15:6"),
+    ("function f(a, b){ var x = 1, y = 2, z = 3; var g = function(){ return [a, b, x, y, z].join() }; z++; y *= 5; --x; b -= 1; a **= 2; return g() } f(3, 4)", "9,3,0,10,4"),
+    ("function f(){ var i = 0, j = 10, k = 100; var inc = function(){ return [i++, ++j, k--].join() }; inc(); return inc() + '|' + [i, j, k].join() } f()", "1,12,99|2,12,98"),
     ("function many(a, b, c){ var v1 = a, v2 = b, v3 = c, v4 = a + b, v5 = b + c, v6 = a + c; var cl = function(){ return [v1, v2, v3, v4, v5, v6].join() }; return many.length + ':' + cl() } many(1, 2, 3)", "3:1,2,3,3,5,4"),
     # calls with fewer and with MORE arguments than parameters: surplus arguments reach `arguments` only, never the locals
     ("function f(a){ if (a) { var t = 1 } return t } [f(0, 7, 8), f(1, 7, 8)]", [None, 1]),
